@@ -75,7 +75,15 @@ pub fn template(body: &[Instr], shape: Shape, force_memory: bool) -> Module {
         body:   vec![Instr::GlobalGet(0), Instr::I32Const(1), Instr::Num(0x6A), Instr::GlobalSet(0)],
     };
     // wrapper: calls f as a callee and packs its result with global 0
-    let mut wb = vec![Instr::LocalGet(0), Instr::LocalGet(1), Instr::Call(shape.f())];
+    // (a sibling call first, so that the register slots f's frame will occupy are dirty)
+    let mut wb = vec![
+        Instr::I32Const(0x1234_5678),
+        Instr::Call(shape.g()),
+        Instr::Drop,
+        Instr::LocalGet(0),
+        Instr::LocalGet(1),
+        Instr::Call(shape.f()),
+    ];
     match shape.ret {
         Some(VT::I32) => wb.extend([
             Instr::Num(0xAD),
@@ -96,8 +104,15 @@ pub fn template(body: &[Instr], shape: Shape, force_memory: bool) -> Module {
     w1b.push(Instr::GlobalGet(1));
     let w1 = Func { ty: T_W, locals: vec![], body: w1b };
     m.funcs = vec![f, g, h, w, w1];
-    m.table = Some((2, Some(2)));
-    m.elems = vec![(0, vec![shape.g(), shape.h()])];
+    if shape.hosts {
+        // imported functions are reachable through the table as well: slot 2 = env.h1
+        // (same type as g), slot 3 = env.h0
+        m.table = Some((4, Some(4)));
+        m.elems = vec![(0, vec![shape.g(), shape.h(), 1, 0])];
+    } else {
+        m.table = Some((2, Some(2)));
+        m.elems = vec![(0, vec![shape.g(), shape.h()])];
+    }
     if force_memory || uses_memory(body) {
         m.memory = Some((1, Some(2)));
         m.data = vec![(0, vec![1, 2, 3, 4, 5, 6, 7, 8])];
@@ -154,7 +169,9 @@ pub fn alphabet(kind: AlphabetKind, shape: Shape) -> Vec<Instr> {
         return a;
     }
     if kind == AlphabetKind::Hosts {
-        a.extend([Call(0), Call(1), Call(shape.g())]);
+        // direct host calls, a local call, and indirect calls (table slot 2 is the imported
+        // env.h1, slot 0 the local g, slot 3 has another type, >= 4 is out of bounds)
+        a.extend([Call(0), Call(1), Call(shape.g()), I32Const(2), CallIndirect(T_G)]);
         return a;
     }
     a.extend([
